@@ -37,6 +37,9 @@ func validatePerBlockReward(r interface{}) error {
 			return fmt.Errorf("duplicate denom in per block reward: %s", rr.Denom)
 		}
 		seen[rr.Denom] = struct{}{}
+		if rr.Amount.IsNil() {
+			return fmt.Errorf("amount of per block reward %s is missing", rr.Denom)
+		}
 		if rr.IsNegative() {
 			return fmt.Errorf("invalid per block reward: %v", rr)
 		}
@@ -58,10 +61,9 @@ func (m *Params) ParamSetPairs() paramtypes.ParamSetPairs {
 }
 
 func (m *Params) validate() error {
-	if m.EnableVesting {
-		return validatePerBlockReward(m.PerBlockReward)
-	}
-	return nil
+	// InitGenesis stores the parameters through Subspace.SetParamSet, which runs
+	// validatePerBlockReward whether vesting is enabled or not (and panics on failure)
+	return validatePerBlockReward(m.PerBlockReward)
 }
 
 func DefaultParams() Params {
